@@ -581,13 +581,12 @@ func (r *Router) waitForHandlers() bool {
 	waitGroup.Add(1)
 	go func() {
 		defer waitGroup.Done()
+
+		// first wait until all handlers' receive loops have ended: only then no new handler invocation can be added
 		r.handlersWg.Wait()
 		verifhook.At("router.close.handlers_wait_done", verifhook.Ptr(r))
-	}()
-	waitGroup.Add(1)
-	go func() {
-		defer waitGroup.Done()
 
+		// ...and then for the invocations that are still running
 		r.runningHandlersWgLock.Lock()
 		defer r.runningHandlersWgLock.Unlock()
 
